@@ -335,6 +335,9 @@ func genC14Plan(r *zsim.Rng) *sysPlan {
 		p.GenProc = append(p.GenProc, ps)
 	}
 	p.DsrMs = r.Intn(3)
+	if r.Chance(1, 8) {
+		p.DsrMs = -1
+	}
 	nev := r.Range(0, 40)
 	for i := 0; i < nev; i++ {
 		switch k := r.Intn(20); {
